@@ -17,6 +17,8 @@ import Osmium.Lemmas.ConvTsFix
 import Osmium.Lemmas.ConvInt
 import Osmium.Lemmas.ConvCoordRt
 import Osmium.Lemmas.ConvCoordFixed
+import Osmium.Generated.Src
+import Osmium.Lemmas.CxxSem
 
 namespace Osmium.Conv.C13
 
@@ -381,5 +383,25 @@ example : oplParseInt 0 4294967295 [52, 50, 57, 52, 57, 54, 55, 50, 57, 54] = .e
   decide +kernel
 example : outputInt (-9223372036854775807) = some [45, 57, 50, 50, 51, 51, 55, 50, 48, 51, 54, 56, 53, 52, 55, 55, 53, 56, 48, 55] := by
   decide +kernel
+
+/-! ### source ties (tools/cxx2lean.py): the expression REGENERATED from /repo's C++ source on every run
+    (Osmium/Generated/Src.lean) equals the hand-written model function. -/
+
+section SrcTies
+open Osmium.Generated Osmium.CxxSem
+
+/-- the initialiser of `leap_year` in `detail::parse_timestamp` (osm/timestamp.hpp) = `isLeapYear`, for every
+    year ≥ 0 (the four digits give 0..9999; C++ `%` truncates, which is `Nat` `%` there); never undefined -/
+theorem src_tie_leap_year (y : Nat) :
+    Src.Timestamp.parse_timestamp_leap_year (y : Int) = isLeapYear y ∧
+    Src.Timestamp.parse_timestamp_leap_year_defined (y : Int) = true := by
+  constructor
+  · dsimp only [isLeapYear, Src.Timestamp.parse_timestamp_leap_year]
+    rw [Bool.eq_iff_iff]
+    simp [Int.tmod]
+    omega
+  · simp [Src.Timestamp.parse_timestamp_leap_year_defined, sdivOk]
+
+end SrcTies
 
 end Osmium.Conv.C13
